@@ -52,8 +52,8 @@ pub(crate) fn crop_source_window(
         return (String::new(), 1);
     }
 
-    // Keep snippet coordinates aligned with parsers that ignore a leading UTF-8 BOM.
-    let text = text.strip_prefix('\u{FEFF}').unwrap_or(text);
+    // (The callers have removed the byte-order mark of the stream, if `text` begins with it. A
+    // U+FEFF anywhere else is a character of its line and counts as a column.)
 
     // Map absolute YAML line to the coordinates within `text`.
     let absolute_row = location.line as usize;
